@@ -9,6 +9,7 @@ use crate::ops::*;
 use crate::run::*;
 use crate::Args;
 
+#[derive(Clone)]
 pub struct CaseResult {
     pub id: String,
     pub annot: String,
@@ -158,14 +159,14 @@ pub fn run(args: &Args) -> i32 {
         cases_txt.push_str(&r.annot);
         real_out.push_str(&r.out);
         stats.merge(&r.stats);
-        evaluations += r.plain.ops.len() as u64;
+        evaluations += if r.plain.ops.is_empty() { r.annot.lines().count().saturating_sub(2) as u64 } else { r.plain.ops.len() as u64 };
         let h = fnv64(r.plain.text().as_bytes());
         if r.nontrivial && distinct.insert(h) {
             nontrivial += 1;
         }
         if !r.viol.is_empty() {
             let path = replays.join(format!("{}.case", r.id));
-            std::fs::write(&path, r.plain.text()).unwrap();
+            std::fs::write(&path, if r.plain.ops.is_empty() { r.annot.clone() } else { r.plain.text() }).unwrap();
             for v in &r.viol {
                 viol_json.push(format!(
                     "{{\"prop\":{},\"what\":{},\"case\":{},\"replay\":{}}}",
@@ -184,7 +185,7 @@ pub fn run(args: &Args) -> i32 {
     let _ = std::fs::remove_dir_all(&all);
     std::fs::create_dir_all(&all).unwrap();
     for r in &results {
-        std::fs::write(all.join(format!("{}.case", r.id)), r.plain.text()).unwrap();
+        std::fs::write(all.join(format!("{}.case", r.id)), if r.plain.ops.is_empty() { r.annot.clone() } else { r.plain.text() }).unwrap();
     }
     let samples: Vec<String> = results.iter().filter(|r| r.nontrivial).take(2).map(|r| {
         let t = r.plain.text();
@@ -214,6 +215,12 @@ pub fn dispatch(scratch: &Path, meta: usize, campaign: &str, id: &str, seed: u64
     match campaign {
         "ops" => case_ops(scratch, meta, id, seed, len, &[Pol::AlwaysFlush]),
         "policy-ops" => case_ops(scratch, meta, id, seed, len, &ALL_POLS),
+        "bytes" => crate::bytes::case_bytes(scratch, meta, id, seed, len, None),
+        "fault" => crate::misc::case_fault(scratch, meta, id, seed, len, None),
+        "lockstep" => crate::misc::case_lockstep(scratch, meta, id, seed, len, None),
+        "projection" => crate::misc::case_projection(scratch, meta, id, seed, len, None),
+        "names" => crate::misc::case_names(scratch, meta, id, seed, len, None),
+        "edge" => crate::misc::case_edge(scratch, meta, id, seed, len, None),
         "damage" => crate::damage::case_damage(scratch, meta, id, seed, len, false, None),
         "damage-aimed" => crate::damage::case_damage(scratch, meta, id, seed, len, true, None),
         "crash" => crate::crash::case_crash(scratch, meta, id, seed, len, &crash_cfg(false), None),
@@ -233,6 +240,11 @@ pub fn crash_cfg(all_policies: bool) -> crate::crash::CrashCfg {
 pub fn dispatch_replay(scratch: &Path, meta: usize, campaign: &str, case: &Case) -> CaseResult {
     let id = if case.id.is_empty() { "replay".to_string() } else { case.id.clone() };
     match campaign {
+        "fault" => crate::misc::case_fault(scratch, meta, &id, 1, 0, Some(case)),
+        "lockstep" => crate::misc::case_lockstep(scratch, meta, &id, 1, 0, Some(case)),
+        "projection" => crate::misc::case_projection(scratch, meta, &id, 1, 0, Some(case)),
+        "names" => crate::misc::case_names(scratch, meta, &id, 1, 0, Some(case)),
+        "edge" => crate::misc::case_edge(scratch, meta, &id, 1, 0, Some(case)),
         "damage" => crate::damage::case_damage(scratch, meta, &id, 1, 0, false, Some(case)),
         "damage-aimed" => crate::damage::case_damage(scratch, meta, &id, 1, 0, true, Some(case)),
         "crash" => crate::crash::case_crash(scratch, meta, &id, 1, 0, &crash_cfg(false), Some(case)),
